@@ -392,11 +392,104 @@ def rule_blendsrc(ctx):
     ctx.floor(rid + ".uses", 2)
 
 
+def rule_alpha_region(ctx):
+    """when a frame is alpha-blended, the region of its alpha plane is looked at"""
+    from ..mirutil import alias_closure
+    rid = "R-ALPHA-REGION"
+    ctx.rule(rid, "blend() positions the new frame with offsets computed from the region of the colour channel being blended.  The alpha "
+                  "plane used by the Blend / MulAdd modes is another channel with its own region (Gaborish / EPF swap the colour channels "
+                  "to their padded region, chroma and extra-channel upsampling and VarDCT group alignment give different origins), so "
+                  "the code has to read regions_and_shifts()[alpha index] somewhere - as it does for the base frame's alpha - before "
+                  "indexing the plane with the colour offsets.  Decided by data flow: an index derived from the alpha-channel index "
+                  "reaches an indexing of the new frame's region list")
+    f = ctx.prog.crate("jxl_render").fn("jxl_render::blend::blend")
+    if f is None:
+        ctx.anchor_missing(rid, "jxl_render::blend::blend")
+        return
+    ctx.seen(f)
+    seeds = set()
+    for b, t in f.calls():
+        c = callee(t)
+        if c and "alpha" in c["fn"].split("::")[-1] and t[3] and len(t[3]) == 1:
+            seeds.add(t[3][0])
+    for blk in f.blocks:
+        if blk[2]:
+            continue
+        for st in blk[0]:
+            if st[0] == "=" and len(st[1]) == 1 and st[2][0] == "use":
+                p = op_place(st[2][1])
+                if p is not None and any(isinstance(e, list) and e[0] == "." and e[2] == "alpha_channel" for e in p[1:]):
+                    seeds.add(st[1][0])
+    if not seeds:
+        ctx.anchor_missing(rid, "the alpha-channel index in blend()")
+        return
+    A = set(alias_closure(f, seeds))
+    for _ in range(4):
+        grew = False
+        for blk in f.blocks:
+            if blk[2]:
+                continue
+            for st in blk[0]:
+                if st[0] == "=" and len(st[1]) == 1 and st[1][0] not in A:
+                    rv = st[2]
+                    ops = [rv[2], rv[3]] if rv[0] == "bin" else ([rv[1]] if rv[0] == "use" else ([rv[2]] if rv[0] == "cast" else []))
+                    for o in ops:
+                        p = op_place(o)
+                        if p is not None and p[0] in A:
+                            A.add(st[1][0])
+                            grew = True
+        if not grew:
+            break
+        A = set(alias_closure(f, A))
+    # which frame does each regions_and_shifts() call look at, and with which index is the list indexed?
+    new_grid_arg = next((i for i in range(1, f.argc + 1) if "&mut jxl_render::image::ImageWithRegion" in f.local_ty(i)), None)
+    from ..mirutil import Defs, access_path
+    defs = Defs(f)
+    looked = []
+    for b, t in f.calls():
+        c = callee(t)
+        if not (c and c["fn"].endswith("ImageWithRegion::regions_and_shifts") and t[3] and len(t[3]) == 1 and t[2]):
+            continue
+        recv = op_local(t[2][0])
+        ap = access_path(f, defs, recv) if recv is not None else None
+        on_new = ap is not None and ap[0] == new_grid_arg and not ap[1]
+        res = set(alias_closure(f, {t[3][0]}, through_fields=False))
+        for blk in f.blocks:
+            if blk[2]:
+                continue
+            for st in blk[0]:
+                if st[0] != "=":
+                    continue
+                pls = []
+                rv = st[2]
+                if rv[0] == "use" and rv[1][0] in ("c", "m"):
+                    pls.append(rv[1][1])
+                elif rv[0] == "ref":
+                    pls.append(rv[2])
+                for pl in pls:
+                    if pl[0] in res:
+                        for e in pl[1:]:
+                            if isinstance(e, list) and e[0] == "[]":
+                                looked.append((on_new, e[1] in A, st[3]))
+    ctx.count(rid + ".region-list-indexings", len(looked))
+    if not looked:
+        ctx.anchor_missing(rid, "indexings of regions_and_shifts() in blend()")
+        return
+    if any(on_new and by_alpha for on_new, by_alpha, _ in looked):
+        ctx.ok(rid, "alpha-region-consulted", "the region of the new frame's alpha plane is read", nontrivial=True, fn=f)
+    else:
+        ctx.bad(rid, "alpha-region-ignored", "blend() never reads the region of the new frame's alpha plane (%d indexings of a region list, none "
+                "of the new frame's by the alpha index): the plane is indexed with the colour channel's offsets, which is wrong whenever "
+                "the two regions differ (a Gaborish frame blended with alpha at a negative offset renders opaque rows as transparent)"
+                % len(looked), fn=f)
+
+
 def main(pid, tier, repo=None):
     ctx = Ctx(pid, tier, configs=("workspace",), repo=repo)
     rule_slot(ctx)
     rule_slotpred(ctx)
     rule_blendsrc(ctx)
+    rule_alpha_region(ctx)
     from . import enummap
     enummap.run(ctx, pid)
     from . import fixguards
